@@ -45,6 +45,15 @@ CHECKS.update({
                 note="Declined: a functional-correctness proof of the merge loops over sequences. With C09 (bounds) and C07 (sorted inputs) the decided tables are every ingredient of the textbook argument. A kernel rewritten into another algorithm is UNDECIDED, never VIOLATED. Trusted: Cython front-end; required tables in sa/kernels.py.", ref="4 C08"),
 })
 
+CHECKS.update({
+    "C15": dict(cat="other", technique="class-structure rule (__eq__/__ne__ slots of a dict subclass), post-dominance of shift_common() on result objects, arg-max idiom recognition on loop back-edge terms, taint reachability into __eq__'s result",
+                text="Decides the structural clauses: != is defined as the negation of == (a dict subclass otherwise inherits dict.__ne__, which raises on arrays); append and filtered end with an argument-less shift_common() after their last store, collapsed delegates to from_array without a common; the three selection sites are arg-max idioms (running maximum / max of (count, value) pairs) over counts that include the common value's own implicit count; __eq__'s result depends on shape, common, entry count and every entry's row ids of both operands, with AttributeError the only exception mapped to False.",
+                note="Declined: that the chosen value's count is maximal for given data, and a == b iff dense contents coincide over histories (values). An unrecognised selection idiom is UNDECIDED.", ref="4 C15"),
+    "C06": dict(cat="other", technique="mod/ref frame-condition analysis of all iindex methods and column_stack; fresh-storage check of requested copies under a specialised copy flag; category-vs-extent classification of fit_dtype call sites",
+                text="NARROW CLAIM. Decides only the statement's last sentence and one dtype clause: operands other than the receiver are never written and non-mutating methods do not write the receiver (all 30 methods, callees inlined); copy(), reindexed(copy=True), column_stack(copy=True), set_if(copy=True) store only freshly allocated arrays; collapsed passes a minimum to fit_dtype because its precedence values may be negative; column_stack re-encodes a copy, never its input.",
+                note="Declined, loudly: the NumPy-model equivalence of append/update/filtered/sliced/reindexed/collapsed/column_stack over operation histories is a statement about values and histories that no static argument in reach decides; e.g. collapsed() returning a value absent from the row when the precedence omits a present value is NOT detectable here.", ref="4 C06"),
+})
+
 NA_REASON = "check not built yet (build in progress; see DESIGN.md section 8)"
 
 
